@@ -18,17 +18,26 @@ NoFwd == [s \in Station |-> {}]
 (* driver knows them; its ;FW line must list exactly these, in this order                                              *)
 VARIABLE expfw
 NoExp == [s \in Station |-> <<"?">>]
+(* lastoff[s]: what the station's handler returned at its latest GetOutbound call (library stations).  A proposal block  *)
+(* holds the most urgent of these: no message left out of the block has a higher precedence than one in it (the order   *)
+(* "precedence, then size" holds across the blocks of a session, not only inside each)                                  *)
+VARIABLE lastoff
 
-TraceInit == TraceInitTL /\ Init /\ alt = Empty /\ fwd = NoFwd /\ expfw = NoExp
+TraceInit == TraceInitTL /\ Init /\ alt = Empty /\ fwd = NoFwd /\ expfw = NoExp /\ lastoff = [s \in Station |-> {}]
 
-TAltered == IsEvent("Altered") /\ alt' = Put(alt, Ev.m, Ev.holds) /\ UNCHANGED <<vars, fwd, expfw>> /\ Consume
-TExpectFw == IsEvent("ExpectFw") /\ expfw' = [expfw EXCEPT ![Ev.s] = Ev.addrs] /\ UNCHANGED <<vars, fwd, alt>> /\ Consume
+TAltered == IsEvent("Altered") /\ alt' = Put(alt, Ev.m, Ev.holds) /\ UNCHANGED <<vars, fwd, expfw, lastoff>> /\ Consume
+TExpectFw == IsEvent("ExpectFw") /\ expfw' = [expfw EXCEPT ![Ev.s] = Ev.addrs] /\ UNCHANGED <<vars, fwd, alt, lastoff>> /\ Consume
 
 TQueue   == IsEvent("Queue") /\ Queue(Ev.s, Ev.m, Ev.policy, Ev.prec) /\ Consume
 TSession == IsEvent("Session") /\ NewSession(Ev.master, Ev.fault) /\ fwd' = NoFwd /\ Consume
 TCut     == IsEvent("Cut") /\ Fault /\ Consume
 TPrepare == IsEvent("Prepare") /\ ret[Ev.s] = "run" /\ UNCHANGED vars /\ Consume
-TOffer   == IsEvent("Offer") /\ Offer(Ev.s, SeqSet(Ev.ms)) /\ (Ev.lib => SeqSet(Ev.fw) = fwd[Peer(Ev.s)]) /\ Consume
+TOffer   == /\ IsEvent("Offer") /\ Offer(Ev.s, SeqSet(Ev.ms)) /\ (Ev.lib => SeqSet(Ev.fw) = fwd[Peer(Ev.s)])
+            /\ lastoff' = IF Ev.lib THEN [lastoff EXCEPT ![Ev.s] = SeqSet(Ev.ms)] ELSE lastoff
+            /\ Consume
+BlockMids(s) == {block[s][i].mid : i \in 1..Len(block[s])}
+MostUrgentFirst(s) == \A u \in lastoff[s] \ BlockMids(s) : \A p \in BlockMids(s) :
+                         (u \in DOMAIN prec /\ p \in DOMAIN prec) => prec[p] <= prec[u]
 THAnswer == IsEvent("HAnswer") /\ HAnswer(Ev.s, Ev.m, Ev.a) /\ Consume
 (* A transfer whose checks no longer hold must not be delivered at all (DeliverOnlyIntact); one that an       *)
 (* independent judge also accepts as fully valid is excluded from the intactness demand, as C04 states.        *)
@@ -48,6 +57,7 @@ TUnit ==
     /\ IsEvent("Unit")
     /\ fwd' = IF Ev.kind = "Fw" THEN [fwd EXCEPT ![Ev.s] = SeqSet(Ev.addrsU)] ELSE fwd
     /\ (Ev.kind = "Fw" /\ expfw[Ev.s] # <<"?">>) => Ev.addrsU = expfw[Ev.s]
+    /\ (Ev.kind = "EndBlock" /\ lastoff[Ev.s] # {}) => MostUrgentFirst(Ev.s)
     /\ LET e == Ev  s == Ev.s  k == Ev.kind IN
        \/ k = "Sid" /\ SidOK(e.b2, e.f, e.dollarLast) /\ HsLine(s, k, FALSE)
        \/ k \in {"Fw", "Pq", "Pr", "Pm"} /\ HsLine(s, k, FALSE)
@@ -63,10 +73,11 @@ TUnit ==
        \* kind "Bad" (anything the lexer could not accept) matches no action
     /\ Consume
 
-TraceNextB == \/ (TSession \/ TUnit)
-              \/ (UNCHANGED fwd /\ (TQueue \/ TCut \/ TPrepare \/ TOffer \/ THAnswer \/ TStore \/ TSetSent \/ TSetDef
-                                     \/ TReturn \/ TClose \/ TEnd \/ TEndAll))
+TraceNextB == \/ (UNCHANGED lastoff /\ (TSession \/ TUnit))
+              \/ (UNCHANGED fwd /\ TOffer)
+              \/ (UNCHANGED <<fwd, lastoff>> /\ (TQueue \/ TCut \/ TPrepare \/ THAnswer \/ TStore \/ TSetSent \/ TSetDef
+                                                 \/ TReturn \/ TClose \/ TEnd \/ TEndAll))
 
 TraceNext == TAltered \/ TExpectFw \/ (UNCHANGED <<alt, expfw>> /\ TraceNextB)
-TraceSpec == TraceInit /\ [][TraceNext]_<<vars, tvars, alt, fwd, expfw>>
+TraceSpec == TraceInit /\ [][TraceNext]_<<vars, tvars, alt, fwd, expfw, lastoff>>
 =============================================================================
